@@ -91,6 +91,7 @@ class Ctx:
         self.t0 = time.time()
         self.max_samples = 6
         self.max_violations = 200
+        self._auto_sampled = False
 
     # -- recording -------------------------------------------------------------------------
     @property
@@ -110,6 +111,9 @@ class Ctx:
             self.distinct.add(h8(key))
         if sample is not None and len(self.samples) < self.max_samples:
             self.samples.append(sample)
+        elif sample is None and key is not None and nontrivial and len(self.samples) < 2 and not self._auto_sampled:
+            self.samples.append({'case_key': key})
+            self._auto_sampled = len(self.samples) >= 2
 
     def count(self, name, n=1):
         self.counters[name] += n
